@@ -290,17 +290,24 @@ def o_path_vs_stream(ctx):
     """the same content given as a path, as a StringIO and twice in one main()
     invocation gives the same .pka text apart from the date line"""
     import propka.run as R
-    name = ctx.choice('structure', ['pair_GLU_ARG_TYR', 'pep8', 'lig_MTX'])
+    name = ctx.choice('structure', ['pair_GLU_ARG_TYR', 'pep8', 'lig_MTX', 'pair_ASP_ASP'])
+    # the same characters either way: also with CRLF line ends and unpadded TER records
+    style = ctx.choice('line_ends', ['LF', 'CRLF', 'CRLF+bare-TER', 'LF+bare-TER'])
+    content = M.text(name)
+    if 'bare-TER' in style:
+        content = content.replace('TER   \n', 'TER\n')
+    if style.startswith('CRLF'):
+        content = content.replace('\n', '\r\n')
     d = tempfile.mkdtemp(prefix='c03')
     cwd = os.getcwd()
     try:
         os.chdir(d)
         path = os.path.join(d, 'micro.pdb')
-        open(path, 'w').write(M.text(name))
+        open(path, 'w', newline='').write(content)
         R.single(path, optargs=['--quiet'], write_pka=True)
         a = open('micro.pka').read()
         os.remove('micro.pka')
-        R.single('micro.pdb', optargs=['--quiet'], stream=io.StringIO(M.text(name)), write_pka=True)
+        R.single('micro.pdb', optargs=['--quiet'], stream=io.StringIO(content), write_pka=True)
         b = open('micro.pka').read()
         os.remove('micro.pka')
         sub = os.path.join(d, 'sub')
@@ -323,7 +330,7 @@ def o_path_vs_stream(ctx):
         R.single(path, optargs=['--quiet'], write_pka=True)
         e = open('micro.pka').read()
         os.remove('micro.pka')
-        R.single('micro.pdb', optargs=['--quiet'], stream=io.StringIO(M.text(name)), write_pka=True)
+        R.single('micro.pdb', optargs=['--quiet'], stream=io.StringIO(content), write_pka=True)
         f = open('micro.pka').read()
 
         def strip(t):
